@@ -200,7 +200,14 @@ func runC01(c *fw.Case) {
 	s := &c01{c: c, model: map[string]string{}, live: live}
 	nk := 3 + r.Intn(10)
 	for i := 0; i < nk; i++ {
-		s.keys = append(s.keys, fmt.Sprintf("k%02d", i))
+		switch i % 4 {
+		case 1:
+			s.keys = append(s.keys, fmt.Sprintf("k%02d\xc3(", i)) // a truncated multi-byte sequence: keys are bytes, not text
+		case 3:
+			s.keys = append(s.keys, fmt.Sprintf("\xff\x00k%02d", i))
+		default:
+			s.keys = append(s.keys, fmt.Sprintf("k%02d", i))
+		}
 	}
 	s.opts = drawDBOpts(r, live)
 	s.opts.Async = r.Intn(5) == 0 // clean close/open cycles must not depend on the WAL mode either
